@@ -12,6 +12,27 @@ mod tlv {
 }
 #[path = "/repo/src/messages.rs"]
 mod messages;
+#[path = "/repo/src/block_watcher.rs"]
+mod block_watcher;
+#[path = "/repo/src/email.rs"]
+mod email;
+#[path = "/repo/src/payment_provider.rs"]
+mod payment_provider;
+#[path = "/repo/src/store.rs"]
+mod store;
+#[path = "/repo/src/rpc.rs"]
+mod real_rpc;
+#[path = "/repo/src/cln_plugin/mod.rs"]
+mod cln_plugin;
+mod rpc;
+mod htlc_manager {
+    include!("/repo/src/htlc_manager.rs");
+    include!("probe_htlc_manager.rs");
+}
+mod world;
+mod sim;
+mod cmd_system;
+mod cmd_classify;
 
 mod cmd_tlv;
 mod cmd_fee;
@@ -23,6 +44,8 @@ fn main() {
     match sub {
         "tlv" => cmd_tlv::run(),
         "fee" => cmd_fee::run(),
+        "classify" => cmd_classify::run(),
+        "system" => cmd_system::run(),
         "mode" => println!("{}", if cfg!(debug_assertions) { "checked" } else { "wrapping" }),
         _ => {
             eprintln!("usage: tramp-harness <tlv|fee|mode>");
